@@ -1,10 +1,13 @@
-"""C13 — engine B-gfi (harness/bgfi.py); theorems in coq/props/C13.v."""
-from . import bgfi
+"""C13 — engine B-gfi (harness/bgfi.py) for switch / or_else; harness/mixq.py for mix; theorems in coq/props/C13.v."""
+from . import bgfi, mixq
 
 
 def run(ctx):
     bgfi.run_property(ctx, "C13", oracles=bgfi.PROP_ORACLES.get("C13"))
+    mixq.check(ctx)
 
 
 def replay(case):
+    if "mix_seed" in case:
+        return mixq.replay(case["mix_seed"])
     return bgfi.replay(case)
